@@ -23,22 +23,22 @@ import (
 )
 
 type c18input struct {
-	expr string   // CUE expression placed in the task's in list
-	deps []int    // tasks it refers to
-	kind string   // direct | mid | interp | nested | whole
+	expr string // CUE expression placed in the task's in list
+	deps []int  // tasks it refers to
+	kind string // direct | mid | interp | nested | whole
 	want func(tok func(int) string) string
 }
 
 type c18task struct {
-	idx     int
-	path    string // e.g. root.t3 or root.seq[1]
-	name    string // t3, s1 ...
-	inputs  []c18input
-	isList  bool
-	dynOf   int    // >=0: dynamic task generated from the items of that producer
-	dynKey  string
-	items   []string // keys this task publishes as items (producer of dynamic tasks)
-	after   []int  // deps expressed through a whole-task reference field
+	idx    int
+	path   string // e.g. root.t3 or root.seq[1]
+	name   string // t3, s1 ...
+	inputs []c18input
+	isList bool
+	dynOf  int // >=0: dynamic task generated from the items of that producer
+	dynKey string
+	items  []string // keys this task publishes as items (producer of dynamic tasks)
+	after  []int    // deps expressed through a whole-task reference field
 }
 
 type c18dag struct {
@@ -222,13 +222,13 @@ type c18event struct {
 }
 
 type c18result struct {
-	events   []c18event
-	runErr   error
-	hung     bool
-	final    cue.Value
-	started  map[string]int
-	order    []string
-	newErr   error
+	events  []c18event
+	runErr  error
+	hung    bool
+	final   cue.Value
+	started map[string]int
+	order   []string
+	newErr  error
 }
 
 // c18run executes one schedule of dag. mode: 0 one gate at a time, 1 several at once, 2 free running with sleeps,
